@@ -5,10 +5,8 @@ package mp4
 // Property C02 (agent c02d): AvcCBox, HvcCBox, Av1CBox, EsdsBox + descriptors, SencBox, UUIDBox, SgpdBox.
 
 // ---------------------------------------------------------------- avcC
-// FINDING: avc.(*DecConfRec).Size() counts 4 trailing bytes for every profile other than 66/77/88 (unless NoTrailingInfo),
-// but avc.(*DecConfRec).EncodeSW writes them only for profiles 100/110/122/144. DecodeAVCDecConfRec accepts e.g. profile 244
-// with trailing info (avc/avcdecoderconfigurationrecord.go:143-161), so the condition below is NOT established by the decoder.
-//@ pred boxOK@AvcCBox(b *AvcCBox) = b.DecConfRec.AVCProfileIndication == 66 || b.DecConfRec.AVCProfileIndication == 77 || b.DecConfRec.AVCProfileIndication == 88 || b.DecConfRec.AVCProfileIndication == 100 || b.DecConfRec.AVCProfileIndication == 110 || b.DecConfRec.AVCProfileIndication == 122 || b.DecConfRec.AVCProfileIndication == 144 || b.DecConfRec.NoTrailingInfo
+// no representation invariant needed: since the repair of avc.(*DecConfRec).EncodeSW the trailing bytes are written under the
+// condition under which Size() counts them (every profile other than 66/77/88, unless NoTrailingInfo).
 
 // ---------------------------------------------------------------- esds and the MPEG-4 descriptors (mp4/descriptors.go)
 // For a descriptor the number of bytes written by EncodeSW is SizeSize() = tag byte + size field + Size().
@@ -22,14 +20,15 @@ package mp4
 //@ schema descEncodeSW method ^EncodeSW$ only ^(DecoderConfig|DecSpecificInfo|SLConfig|Raw)?Descriptor\.
 //@   requires swOKi(p1) && descOK(p0)
 //@   ensures swOKi(p1)
+//@   ensures p1.(*bits.FixedSliceWriter).accError == nil ==> old(p1.(*bits.FixedSliceWriter).accError) == nil
 //@   ensures[C02] result == nil ==> adv(p1, int(p0.SizeSize()))
-//@   assigns p1.(*bits.FixedSliceWriter).off, p1.(*bits.FixedSliceWriter).accError, p1.(*bits.FixedSliceWriter).n, p1.(*bits.FixedSliceWriter).v, p1.(*bits.FixedSliceWriter).buf[:]
+//@   assigns p1.(*bits.FixedSliceWriter).off, p1.(*bits.FixedSliceWriter).accError, p1.(*bits.FixedSliceWriter).n, p1.(*bits.FixedSliceWriter).v, p1.(*bits.FixedSliceWriter).buf[:], ghost(p1).tr
 
 // The size field takes sizeFieldSizeMinus1+1 bytes, whatever the value (each WriteBits(.., 8) advances by one byte and keeps
 // the number of pending bits).
 //@ func writeDescriptorSize
 //@   ensures adv(sw, int(sizeFieldSizeMinus1) + 1)
-//@   assigns sw.(*bits.FixedSliceWriter).off, sw.(*bits.FixedSliceWriter).accError, sw.(*bits.FixedSliceWriter).n, sw.(*bits.FixedSliceWriter).v, sw.(*bits.FixedSliceWriter).buf[:]
+//@   assigns sw.(*bits.FixedSliceWriter).off, sw.(*bits.FixedSliceWriter).accError, sw.(*bits.FixedSliceWriter).n, sw.(*bits.FixedSliceWriter).v, sw.(*bits.FixedSliceWriter).buf[:], ghost(sw).tr
 //@   loop 1 invariant -1 <= pos && pos <= int(sizeFieldSizeMinus1) && adv(sw, int(sizeFieldSizeMinus1) - pos)
 
 // descSum(ds, n): sum of SizeSize() of the first n descriptors
@@ -84,8 +83,9 @@ package mp4
 //@ func (*ESDescriptor).EncodeSW
 //@   requires esOK(e)
 //@   ensures swOKi(sw)
+//@   ensures sw.(*bits.FixedSliceWriter).accError == nil ==> old(sw.(*bits.FixedSliceWriter).accError) == nil
 //@   ensures[C02] result == nil ==> adv(sw, int(e.SizeSize()))
-//@   assigns sw.(*bits.FixedSliceWriter).off, sw.(*bits.FixedSliceWriter).accError, sw.(*bits.FixedSliceWriter).n, sw.(*bits.FixedSliceWriter).v, sw.(*bits.FixedSliceWriter).buf[:]
+//@   assigns sw.(*bits.FixedSliceWriter).off, sw.(*bits.FixedSliceWriter).accError, sw.(*bits.FixedSliceWriter).n, sw.(*bits.FixedSliceWriter).v, sw.(*bits.FixedSliceWriter).buf[:], ghost(sw).tr
 //@   loop 1 invariant e.DecConfigDescriptor != nil
 //@   loop 1 invariant !esFA(e) && !esFB(e) && !esFC(e) && e.SLConfigDescriptor == nil ==> adv(sw, 2 + int(e.sizeFieldSizeMinus1) + int(esBase(e)) + int(e.DecConfigDescriptor.SizeSize()) + int(descSum(e.OtherDescriptors, idx(1))))
 //@   loop 1 invariant !esFA(e) && !esFB(e) && !esFC(e) && e.SLConfigDescriptor != nil ==> adv(sw, 2 + int(e.sizeFieldSizeMinus1) + int(esBase(e)) + int(e.DecConfigDescriptor.SizeSize()) + int(e.SLConfigDescriptor.SizeSize()) + int(descSum(e.OtherDescriptors, idx(1))))
@@ -113,25 +113,24 @@ package mp4
 //@ spec rec sencSum(ss [][]SubSamplePattern, n int, piv uint64, flag bool) uint64 = ite(n <= 0, uint64(0), ite(flag, sencSum(ss, n-1, piv, flag) + piv + 2 + 6*uint64(len(ss[n-1])), sencSum(ss, n-1, piv, flag) + piv))
 // sencPart(s, n): payload bytes of the first n samples of a parsed senc box
 //@ spec sencPart(s *SencBox, n int) uint64 = sencSum(s.SubSamples, n, uint64(s.perSampleIVSize), s.Flags&2 != 0)
-// sencBody(s): payload bytes after version/flags and sample count of a parsed senc box
-//@ spec sencBody(s *SencBox) uint64 = sencPart(s, int(s.SampleCount))
+// sencBodyLen(s): payload bytes after version/flags and sample count of a parsed senc box
+//@ spec sencBodyLen(s *SencBox) uint64 = sencPart(s, int(s.SampleCount))
 
 //@ func (*SencBox).calcSize
 //@   requires s != nil
-//@   ensures result == 16 + sencBody(s)
+//@   ensures result == 16 + sencBodyLen(s)
 //@   assigns nothing
 //@   loop 1 invariant i <= s.SampleCount && totalSize == 16 + sencPart(s, int(i))
 
-// sencOK: see the report for which conjuncts the decoders establish.
-//  - not yet parsed: the size from the header is 16 + len(rawData)   (DecodeSencSR senc.go:176-184 when hdr.Hdrlen == 8; FINDING for Hdrlen == 16)
-//  - parsed: readBoxSize is 0 (constructed box) or agrees with the parsed content (FINDING: not guaranteed, e.g. SampleCount == 0 with trailing bytes)
-//  - parsed with IVs: every IV has perSampleIVSize bytes (AddSample senc.go:69-76, ParseReadBox senc.go:219-227, parseAndFillSamples senc.go:279)
-//  - the subsample flag is set whenever some subsample table is non-empty (AddSample senc.go:81-84; parseAndFillSamples only runs with the flag set)
+// sencOK (Size() is 16 + len(rawData) while read-but-not-parsed, senc.go:306-313, and calcSize() once parsed):
+//  - parsed with IVs: every IV has perSampleIVSize bytes (AddSample senc.go:66-77, ParseReadBox senc.go:216-225, parseAndFillSamples senc.go:266)
+//  - the subsample flag is set whenever some subsample table is non-empty (AddSample senc.go:79-82; parseAndFillSamples only runs
+//    with the flag set, senc.go:204/233); under it setSubSamplesUsedFlag does not change Flags, i.e. Size() before and after EncodeSW agree
 //@ pred sencFlagOK(s *SencBox) = s.Flags&2 != 0 || (forall k int :: 0 <= k && k < len(s.SubSamples) ==> len(s.SubSamples[k]) == 0)
 //@ pred sencIVsOK(s *SencBox) = forall k int :: 0 <= k && k < int(s.SampleCount) ==> len(s.IVs[k]) == int(s.perSampleIVSize)
 // sencEncOK: what EncodeSWNoHdr needs; sencOK: in addition what relates the bytes written to Size().
 //@ pred sencEncOK(s *SencBox) = s != nil && (!s.readButNotParsed && s.perSampleIVSize > 0 ==> sencIVsOK(s))
-//@ pred sencOK(s *SencBox) = sencEncOK(s) && sencFlagOK(s) && (s.readButNotParsed ==> s.readBoxSize == 16 + uint64(len(s.rawData))) && (!s.readButNotParsed ==> s.readBoxSize == 0 || s.readBoxSize == 16 + sencBody(s))
+//@ pred sencOK(s *SencBox) = sencEncOK(s) && sencFlagOK(s)
 //@ pred boxOK@SencBox(b *SencBox) = sencOK(b)
 
 //@ func (*SencBox).setSubSamplesUsedFlag
@@ -145,8 +144,9 @@ package mp4
 //@ func (*SencBox).EncodeSWNoHdr
 //@   requires sencEncOK(s)
 //@   ensures swOKi(sw)
-//@   ensures[C02] result == nil ==> adv(sw, 8 + ite(s.readButNotParsed, len(s.rawData), int(sencBody(s))))
-//@   assigns sw.(*bits.FixedSliceWriter).off, sw.(*bits.FixedSliceWriter).accError, sw.(*bits.FixedSliceWriter).n, sw.(*bits.FixedSliceWriter).v, sw.(*bits.FixedSliceWriter).buf[:]
+//@   ensures sw.(*bits.FixedSliceWriter).accError == nil ==> old(sw.(*bits.FixedSliceWriter).accError) == nil
+//@   ensures[C02] result == nil ==> adv(sw, 8 + ite(s.readButNotParsed, len(s.rawData), int(sencBodyLen(s))))
+//@   assigns sw.(*bits.FixedSliceWriter).off, sw.(*bits.FixedSliceWriter).accError, sw.(*bits.FixedSliceWriter).n, sw.(*bits.FixedSliceWriter).v, sw.(*bits.FixedSliceWriter).buf[:], ghost(sw).tr
 //@   loop 1 invariant 0 <= i && i <= int(s.SampleCount) && adv(sw, 8 + int(sencPart(s, i)))
 //@   loop 2 invariant idx(2) <= len(s.SubSamples[i])
 //@   loop 2 invariant 0 <= i && i < int(s.SampleCount) && s.Flags&2 != 0 && adv(sw, 8 + int(sencSum(s.SubSamples, i, uint64(s.perSampleIVSize), true) + uint64(s.perSampleIVSize) + 2 + 6*uint64(idx(2))))
@@ -155,7 +155,7 @@ package mp4
 // but the location is written, so the frame of the schema (writer only) is widened by s.Flags for this box. DEVIATION, reported.
 //@ func (*SencBox).EncodeSW
 //@   ensures s.Flags == old(s.Flags)
-//@   assigns s.Flags, sw.(*bits.FixedSliceWriter).off, sw.(*bits.FixedSliceWriter).accError, sw.(*bits.FixedSliceWriter).n, sw.(*bits.FixedSliceWriter).v, sw.(*bits.FixedSliceWriter).buf[:]
+//@   assigns s.Flags, sw.(*bits.FixedSliceWriter).off, sw.(*bits.FixedSliceWriter).accError, sw.(*bits.FixedSliceWriter).n, sw.(*bits.FixedSliceWriter).v, sw.(*bits.FixedSliceWriter).buf[:], ghost(sw).tr
 
 // ---------------------------------------------------------------- sgpd and the sample group entries
 // sgeOK(e): representation invariant of a sample group entry (per type; abstract for an entry of unknown dynamic type).
@@ -165,7 +165,7 @@ package mp4
 //@   requires swOKi(p1) && sgeOK(p0)
 //@   ensures swOKi(p1)
 //@   ensures[C02] adv(p1, int(p0.Size()))
-//@   assigns p1.(*bits.FixedSliceWriter).off, p1.(*bits.FixedSliceWriter).accError, p1.(*bits.FixedSliceWriter).n, p1.(*bits.FixedSliceWriter).v, p1.(*bits.FixedSliceWriter).buf[:]
+//@   assigns p1.(*bits.FixedSliceWriter).off, p1.(*bits.FixedSliceWriter).accError, p1.(*bits.FixedSliceWriter).n, p1.(*bits.FixedSliceWriter).v, p1.(*bits.FixedSliceWriter).buf[:], ghost(p1).tr
 
 // seig: Size() counts 16 bytes for the KID (DecodeSeigSampleGroupEntry samplegroupentries.go:66 reads exactly 16)
 //@ pred sgeOK@SeigSampleGroupEntry(s *SeigSampleGroupEntry) = len(s.KID) == 16
@@ -193,7 +193,11 @@ package mp4
 //  - a version 0 box has no entries (DecodeSgpdSR sgpd.go:56-58: with version 0 the description length is 0 and any entry is rejected)
 //  - every entry is a valid entry (results of the entry decoders)
 //  - with a default length every entry has that size, otherwise DescriptionLengths is parallel to the entries and gives their sizes.
-//    FINDING: the roll/rap (and alst) entry decoders ignore the given length, so this is NOT established by the decoder.
+//    Needed by the proof (EncodeSW writes entry.Size() bytes per entry, Size() counts the declared length). Established by the
+//    entry decoders called with the declared length (sgpd.go:51-59): seig samplegroupentries.go:71, roll :184, rap :226 reject a
+//    differing length; unknown :141 reads exactly length bytes.
+//    FINDING (open): DecodeAlstSampleGroupEntry (:283-307) does NOT establish it: a declared length smaller than 4+4*roll_count, or
+//    one that exceeds it by a number not divisible by 4, is accepted. Test TestC02finAlstLength.
 //    Individual lengths are at most 2^32-5: Size() adds uint64(4 + descLen) computed in uint32 (wraps for larger values; such an
 //    entry would be larger than the 4 GiB assumed as maximal box size).
 //@ pred sgpdDefOK(b *SgpdBox) = forall k int :: 0 <= k && k < len(b.SampleGroupEntries) ==> b.SampleGroupEntries[k].Size() == uint64(b.DefaultLength)
@@ -228,14 +232,16 @@ package mp4
 //@ func (*TfxdData).encode
 //@   requires t != nil
 //@   ensures swOKi(sw)
+//@   ensures sw.(*bits.FixedSliceWriter).accError == nil ==> old(sw.(*bits.FixedSliceWriter).accError) == nil
 //@   ensures[C02] result == nil ==> adv(sw, ite(t.Version == 0, 12, 20))
-//@   assigns sw.(*bits.FixedSliceWriter).off, sw.(*bits.FixedSliceWriter).accError, sw.(*bits.FixedSliceWriter).n, sw.(*bits.FixedSliceWriter).v, sw.(*bits.FixedSliceWriter).buf[:]
+//@   assigns sw.(*bits.FixedSliceWriter).off, sw.(*bits.FixedSliceWriter).accError, sw.(*bits.FixedSliceWriter).n, sw.(*bits.FixedSliceWriter).v, sw.(*bits.FixedSliceWriter).buf[:], ghost(sw).tr
 
 //@ func (*TfrfData).encode
 //@   requires t != nil
 //@   ensures swOKi(sw)
+//@   ensures sw.(*bits.FixedSliceWriter).accError == nil ==> old(sw.(*bits.FixedSliceWriter).accError) == nil
 //@   ensures[C02] result == nil ==> adv(sw, 5 + ite(t.Version == 0, 8, 16)*int(t.FragmentCount))
-//@   assigns sw.(*bits.FixedSliceWriter).off, sw.(*bits.FixedSliceWriter).accError, sw.(*bits.FixedSliceWriter).n, sw.(*bits.FixedSliceWriter).v, sw.(*bits.FixedSliceWriter).buf[:]
+//@   assigns sw.(*bits.FixedSliceWriter).off, sw.(*bits.FixedSliceWriter).accError, sw.(*bits.FixedSliceWriter).n, sw.(*bits.FixedSliceWriter).v, sw.(*bits.FixedSliceWriter).buf[:], ghost(sw).tr
 //@   loop 1 invariant i <= t.FragmentCount && t.Version == 0 && adv(sw, 5 + 8*int(i))
 //@   loop 1 invariant i < t.FragmentCount || i == t.FragmentCount
 //@   loop 2 invariant i <= t.FragmentCount && t.Version != 0 && adv(sw, 5 + 16*int(i))
@@ -244,15 +250,25 @@ package mp4
 // boxOK@UUIDBox:
 //  - the uuid has 16 bytes (DecodeUUIDBoxSR uuid.go:172 reads 16; NewTfrfBox/NewTfxdBox use the 16-byte constants)
 //  - the payload matching the uuid is present (DecodeUUIDBoxSR uuid.go:174-196, NewTfxdBox, NewTfrfBox)
-//  - FINDING: tfxd/tfrf version <= 1: size() counts 8+8*Version bytes per time/duration pair, encode writes 8 (version 0) or 16; the
-//    decoders decodeTfxd/decodeTfrf accept any version byte, so this is NOT established by the decoder.
 //  - piff senc: the embedded SencBox is valid (sencOK, see there)
 //@ pred isTfxd(b *UUIDBox) = uuidEq(b.uuid, uuidTfxd)
 //@ pred isTfrf(b *UUIDBox) = !uuidEq(b.uuid, uuidTfxd) && uuidEq(b.uuid, uuidTfrf)
 //@ pred isPiff(b *UUIDBox) = !uuidEq(b.uuid, uuidTfxd) && !uuidEq(b.uuid, uuidTfrf) && uuidEq(b.uuid, uuidPiffSenc)
-//@ pred boxOK@UUIDBox(b *UUIDBox) = len(b.uuid) == 16 && (isTfxd(b) ==> b.Tfxd != nil && b.Tfxd.Version <= 1) && (isTfrf(b) ==> b.Tfrf != nil && b.Tfrf.Version <= 1) && (isPiff(b) ==> sencOK(b.Senc))
+//@ pred boxOK@UUIDBox(b *UUIDBox) = len(b.uuid) == 16 && (isTfxd(b) ==> b.Tfxd != nil) && (isTfrf(b) ==> b.Tfrf != nil) && (isPiff(b) ==> sencOK(b.Senc))
 
 // ASSUMPTION (assumes): the writer's buffer is not the array holding the box's uuid or one of the three constant uuids (otherwise
 // writing could change which branch Size() takes afterwards). Every Encode() method allocates a fresh buffer (bits.NewFixedSliceWriter).
 //@ func (*UUIDBox).EncodeSW
 //@   assumes ref(sw.(*bits.FixedSliceWriter).buf) != ref(b.uuid) && ref(sw.(*bits.FixedSliceWriter).buf) != ref(uuidTfxd) && ref(sw.(*bits.FixedSliceWriter).buf) != ref(uuidTfrf) && ref(sw.(*bits.FixedSliceWriter).buf) != ref(uuidPiffSenc)
+
+// ---------------------------------------------------------------- trun (added by c02fin)
+// no representation invariant needed. The per-sample size is 4 bytes per optional field present (flags 0x100, 0x200, 0x400,
+// 0x800); the loop invariant is split by the number of fields present so that each case has a literal multiplier.
+//@ spec trunNF(t *TrunBox) int = ite(t.Flags&0x100 != 0, 1, 0) + ite(t.Flags&0x200 != 0, 1, 0) + ite(t.Flags&0x400 != 0, 1, 0) + ite(t.Flags&0x800 != 0, 1, 0)
+//@ spec trunHead(t *TrunBox) int = 16 + ite(t.Flags&0x1 != 0, 4, 0) + ite(t.Flags&0x4 != 0, 4, 0)
+//@ func (*TrunBox).EncodeSW
+//@   loop 1 invariant trunNF(t) == 0 ==> adv(sw, trunHead(t))
+//@   loop 1 invariant trunNF(t) == 1 ==> adv(sw, trunHead(t) + 4*int(i))
+//@   loop 1 invariant trunNF(t) == 2 ==> adv(sw, trunHead(t) + 8*int(i))
+//@   loop 1 invariant trunNF(t) == 3 ==> adv(sw, trunHead(t) + 12*int(i))
+//@   loop 1 invariant trunNF(t) == 4 ==> adv(sw, trunHead(t) + 16*int(i))
